@@ -43,6 +43,7 @@ type coordCase struct {
 	MaxAge int64
 	SWR    bool // stale-while-revalidate on the resource
 	Big    bool // 32 MB bodies: more than the socket buffers hold (a slow client then blocks its handler)
+	NoCL   bool // the origin sends no Content-Length (chunked): a cut body is only seen as a read error
 	Acts   []CoAct
 }
 
@@ -51,11 +52,11 @@ func (c coordCase) Sx() sx.V {
 	for _, a := range c.Acts {
 		acts = append(acts, sx.L(sx.S(a.Kind), sx.I(int64(a.I)), sx.S(a.Arg), sx.I(a.Dt)))
 	}
-	return sx.L(sx.S("coord"), sx.I(c.MaxAge), sx.B(c.SWR), sx.B(c.Big), sx.L(acts...))
+	return sx.L(sx.S("coord"), sx.I(c.MaxAge), sx.B(c.SWR), sx.B(c.Big), sx.L(acts...), sx.B(c.NoCL))
 }
 
 func coordCaseFromSx(v sx.V) coordCase {
-	c := coordCase{MaxAge: v.N(1).Int(), SWR: v.N(2).Bool(), Big: v.N(3).Bool()}
+	c := coordCase{MaxAge: v.N(1).Int(), SWR: v.N(2).Bool(), Big: v.N(3).Bool(), NoCL: v.N(5).Bool()}
 	for _, a := range v.N(4).List() {
 		c.Acts = append(c.Acts, CoAct{Kind: a.N(0).Str(), I: int(a.N(1).Int()), Arg: a.N(2).Str(), Dt: a.N(3).Int()})
 	}
@@ -81,6 +82,7 @@ type gatedOrigin struct {
 	bodyLen  int
 	cc       string
 	progress int64
+	noCL     bool
 }
 
 func (g *gatedOrigin) body(ver int) string {
@@ -166,15 +168,34 @@ func (g *gatedOrigin) Do(req *http.Request) (*http.Response, error) {
 	g.mu.Unlock()
 	b := g.body(ver)
 	h := http.Header{"Content-Type": []string{"text/plain"}, "Cache-Control": []string{g.cc}, "Etag": []string{fmt.Sprintf(`"e%d"`, ver)}, "Content-Length": []string{fmt.Sprint(len(b))}}
-	if how == "cut" {
-		return mk(200, h, &failAfter{data: []byte(b[:len(b)/2])}, int64(len(b))), nil
+	declared := int64(len(b))
+	if g.noCL {
+		h.Del("Content-Length")
+		declared = -1
 	}
-	return mk(200, h, strings.NewReader(b), int64(len(b))), nil
+	if how == "cut" {
+		return mk(200, h, &failAfter{data: []byte(b[:len(b)/2])}, declared), nil
+	}
+	return mk(200, h, strings.NewReader(b), declared), nil
 }
 func (g *gatedOrigin) CloseIdleConnections() {}
 
 // ---- clients ----
+type countingReader struct {
+	r io.Reader
+	n *int64
+}
+
+func (c *countingReader) Read(p []byte) (int, error) {
+	k, err := c.r.Read(p)
+	if c.n != nil {
+		atomic.AddInt64(c.n, int64(k))
+	}
+	return k, err
+}
+
 type coClient struct {
+	progress *int64
 	status  int
 	version string
 	whole   bool
@@ -211,7 +232,7 @@ func runClient(addr string, slow bool, wantLen int, c *coClient) {
 		<-c.resume
 		if os.Getenv("HX_DEBUG") != "" { fmt.Fprintln(os.Stderr, "slow client resumed") }
 	}
-	_, rerr := io.Copy(&body, resp.Body)
+	_, rerr := io.Copy(&body, &countingReader{r: resp.Body, n: c.progress})
 	if os.Getenv("HX_DEBUG") != "" { fmt.Fprintln(os.Stderr, "client copied", body.Len(), rerr) }
 	resp.Body.Close()
 	b := body.String()
@@ -249,7 +270,7 @@ func (c coordCase) Run() (sx.V, error) {
 	if err != nil {
 		return sx.L(), err
 	}
-	g := &gatedOrigin{bodyLen: 64, cc: fmt.Sprintf("max-age=%d", c.MaxAge)}
+	g := &gatedOrigin{bodyLen: 64, cc: fmt.Sprintf("max-age=%d", c.MaxAge), noCL: c.NoCL}
 	if c.SWR {
 		g.cc += ", stale-while-revalidate=1000"
 	}
@@ -260,7 +281,7 @@ func (c coordCase) Run() (sx.V, error) {
 	router := proxy.NewRouterWithPerformer(rules, discardLogger, conf, g)
 	smux := http.NewServeMux()
 	server.ConfigureServeMux(smux, conf, router, discardLogger, cache)
-	var entered, arrivals int64
+	var entered, arrivals, clientBytes int64
 	ts := httptest.NewServer(http.HandlerFunc(func(w http.ResponseWriter, r *http.Request) {
 		atomic.AddInt64(&entered, 1)
 		smux.ServeHTTP(w, r)
@@ -295,7 +316,7 @@ func (c coordCase) Run() (sx.V, error) {
 		for k := 0; k < 80 && same < 4; k++ {
 			time.Sleep(25 * time.Millisecond)
 			g.mu.Lock()
-			s := fmt.Sprint(len(g.fetches), g.inflight, atomic.LoadInt64(&g.progress))
+			s := fmt.Sprint(len(g.fetches), g.inflight, atomic.LoadInt64(&g.progress), atomic.LoadInt64(&clientBytes))
 			g.mu.Unlock()
 			for i := 0; i < 16; i++ {
 				if cl, ok := clients[i]; ok {
@@ -343,7 +364,7 @@ func (c coordCase) Run() (sx.V, error) {
 	for _, a := range c.Acts {
 		switch a.Kind {
 		case "arrive":
-			cl := &coClient{done: make(chan struct{}), resume: make(chan struct{})}
+			cl := &coClient{done: make(chan struct{}), resume: make(chan struct{}), progress: &clientBytes}
 			clients[a.I] = cl
 			atomic.AddInt64(&arrivals, 1)
 			go runClient(addr, a.Arg == "slow", g.bodyLen, cl)
@@ -367,6 +388,13 @@ func (c coordCase) Run() (sx.V, error) {
 				case <-cl.resume:
 				default:
 					close(cl.resume)
+				}
+				// a resumed client whose response has begun reads it to the end (its handler then ends)
+				if atomic.LoadInt64(&entered) >= atomic.LoadInt64(&arrivals) {
+					select {
+					case <-cl.done:
+					case <-time.After(3 * time.Second):
+					}
 				}
 			}
 		case "adv":
@@ -417,7 +445,7 @@ func (c coordCase) Run() (sx.V, error) {
 		time.Sleep(40 * time.Millisecond)
 	}
 	settle()
-	final := &coClient{done: make(chan struct{}), resume: make(chan struct{})}
+	final := &coClient{done: make(chan struct{}), resume: make(chan struct{}), progress: &clientBytes}
 	t0 := time.Now()
 	atomic.AddInt64(&arrivals, 1)
 	go runClient(addr, false, g.bodyLen, final)
@@ -480,8 +508,26 @@ func coordPinned() []coordCase {
 	}
 }
 
+func coordPinnedChunked() []coordCase {
+	var out []coordCase
+	for _, c := range coordPinned() {
+		for _, a := range c.Acts {
+			if a.Arg == "cut" {
+				c.NoCL = true
+				out = append(out, c)
+				break
+			}
+		}
+	}
+	// a cut fill with nobody waiting, then later requests: the truncated body must not have become an entry
+	out = append(out, coordCase{MaxAge: 60, NoCL: true, Acts: []CoAct{act("arrive", 0, "fast"), act("answer", 0, "cut"), act("arrive", 1, "fast"), act("answer", 1, "new"), act("arrive", 2, "fast")}})
+	out = append(out, coordCase{MaxAge: 60, NoCL: true, Acts: []CoAct{act("arrive", 0, "fast"), act("answer", 0, "new"), {Kind: "adv", Dt: 100}, act("arrive", 1, "fast"), act("answer", 1, "cut"),
+		act("arrive", 2, "fast"), act("answer", 2, "new"), act("arrive", 3, "fast")}})
+	return out
+}
+
 func genCoord(tier string, rng *Rng) []Case {
-	n := 40
+	n := 48
 	if tier == "thorough" {
 		n = 400
 	}
@@ -489,9 +535,12 @@ func genCoord(tier string, rng *Rng) []Case {
 	for _, c := range coordPinned() {
 		out = append(out, c)
 	}
+	for _, c := range coordPinnedChunked() {
+		out = append(out, c)
+	}
 	answers := []string{"new", "new", "304", "500", "fail", "cut"}
 	for len(out) < n {
-		c := coordCase{MaxAge: 60, SWR: rng.Chance(20, 100), Big: rng.Chance(25, 100)}
+		c := coordCase{MaxAge: 60, SWR: rng.Chance(20, 100), Big: rng.Chance(25, 100), NoCL: rng.Chance(30, 100)}
 		arrived, fetchesAnswered, resumed := 0, 0, map[int]bool{}
 		slow := map[int]bool{}
 		steps := 4 + rng.Intn(8)
